@@ -314,13 +314,11 @@ func checkRevocation(cert *x509.Certificate, b *crl.Bundle, signingTime time.Tim
 			// validate signingTime and invalidityDate
 			if !signingTime.IsZero() && !extensions.invalidityDate.IsZero() &&
 				signingTime.Before(extensions.invalidityDate) {
-				// signing time is before the invalidity date which means the
-				// certificate is not revoked at the time of signing.
-				return &result.ServerResult{
-					Result:           result.ResultOK,
-					Server:           crlURL,
-					RevocationMethod: result.RevocationMethodCRL,
-				}, nil
+				// signing time is before the invalidity date which means this
+				// entry does not count against the certificate at the time
+				// of signing; later entries for the same serial number (for
+				// example in the delta CRL) still have to be examined.
+				continue
 			}
 
 			switch revocationEntry.ReasonCode {
